@@ -83,6 +83,14 @@ impl Builtin for Lg {
                 log_push(format!("e{}", first));
                 Ok(args.into_iter().next().unwrap_or(Obj::Null))
             }
+            "lgm" => {
+                log_push("m".to_string());
+                Ok(Obj::Null)
+            }
+            "lgv" => {
+                log_push(format!("v:{}", first));
+                Ok(args.into_iter().next().unwrap_or(Obj::Null))
+            }
             "lgt" => {
                 log_push(format!("e{}", first));
                 Err(NErr::throw("operand refuses".to_string()))
@@ -240,7 +248,11 @@ impl World {
             e.insert_builtin(Lg("lg"));
             e.insert_builtin(Lg("lgt"));
             e.insert_builtin(Lg("lgo"));
+            e.insert_builtin(Lg("lgv"));
+            e.insert_builtin(Lg("lgm"));
         }
+        // operator functions for op-assignments on a precedence
+        interp.eval("thrower := \\a, b -> throw \"no\"; strer := \\a, b -> \"s\"; addk0 := \\p -> p + 0; addk1 := \\p -> p + 1; addk2 := \\p -> p + 2; addk3 := \\p -> p + 3");
         for k in 0..4 {
             interp.eval(&format!("nf{} := {}", k, 7 + k));
         }
@@ -333,10 +345,34 @@ fn outcome_with_log(o: &Outcome, evals: bool) -> String {
     let log = log_take();
     match o {
         Outcome::Ok(v) => {
-            let e: Vec<&str> = log.iter().filter(|s| !s.starts_with("a:")).map(|s| s.as_str()).collect();
-            let a: Vec<&str> = log.iter().filter(|s| s.starts_with("a:")).map(|s| &s[2..]).collect();
+            // applications made by a probing operator function (between `m` and `v:`) belong to its
+            // inner chain, not to the chain under test
+            let mut e: Vec<&str> = vec![];
+            let mut a: Vec<&str> = vec![];
+            let mut seen: Vec<&str> = vec![];
+            let mut pending_apps: Vec<&str> = vec![];
+            for s in log.iter() {
+                if let Some(x) = s.strip_prefix("a:") {
+                    pending_apps.push(x);
+                } else if s == "m" {
+                    a.extend(pending_apps.drain(..));
+                } else if let Some(x) = s.strip_prefix("v:") {
+                    seen.push(x);
+                    pending_apps.clear(); // the inner chain's applications
+                } else {
+                    a.extend(pending_apps.drain(..));
+                    e.push(s.as_str());
+                }
+            }
+            a.extend(pending_apps.drain(..));
             if evals {
-                format!("ok {} evals={} apps={}", v, e.join(","), a.join(","))
+                format!(
+                    "ok {} evals={} apps={}{}",
+                    v,
+                    e.join(","),
+                    a.join(","),
+                    if seen.is_empty() { String::new() } else { format!(" seen={}", seen.join(";")) }
+                )
             } else {
                 format!("ok {} apps={}", v, a.join(","))
             }
@@ -1038,7 +1074,47 @@ fn main() {
                     if y == x {
                         y = (x + 1) % k;
                     }
-                    let (stmt, tok) = match rng.below(5) {
+                    let (stmt, tok) = match rng.below(9) {
+                        5 => {
+                            // a completed op-assignment on the precedence
+                            let r = rng.below(4) as i64;
+                            match rng.below(4) {
+                                0 => (format!("{}::precedence += {}", name(x), r), format!("oa-{}-P{}", name(x), r)),
+                                1 => (format!("{}::precedence -= {}", name(x), r), format!("oa-{}-M{}", name(x), r)),
+                                2 => (format!("{}::precedence .= addk{}", name(x), r), format!("oa-{}-P{}", name(x), r)),
+                                _ => {
+                                    let m = rng.below(3) as i64;
+                                    (format!("{}::precedence *= {}", name(x), m), format!("om-{}-P{}", name(x), m))
+                                }
+                            }
+                        }
+                        6 | 7 => {
+                            // an op-assignment that cannot complete, caught: nothing was assigned
+                            let body = match rng.below(4) {
+                                0 => format!("{}::precedence //= 0", name(x)),
+                                1 => format!("{}::precedence += \"s\"", name(x)),
+                                2 => format!("{}::precedence thrower= 1", name(x)),
+                                _ => format!("{}::precedence strer= 1", name(x)),
+                            };
+                            (format!("(try {} catch _ -> null)", body), format!("of-{}", name(x)))
+                        }
+                        8 => {
+                            // the operator function of the op-assignment evaluates a chain over the
+                            // operators of this chain while the op-assignment is under way
+                            let z = rng.below(k as u64) as usize;
+                            let r = rng.below(7) as i64 - 3;
+                            let pb = format!("pb{}x{}", ci, i);
+                            prefix.push_str(&format!(
+                                "{} := \\p, d -> (lgm(0); lgv(100 {} 101 {} 102); p + d); ",
+                                pb,
+                                name(y),
+                                name(z)
+                            ));
+                            (
+                                format!("{}::precedence {}= {}", name(x), pb, if r < 0 { format!("(0-{})", -r) } else { r.to_string() }),
+                                format!("ob-{}-{}{}-{}-{}", name(x), if r < 0 { "M" } else { "P" }, r.abs(), name(y), name(z)),
+                            )
+                        }
                         0 | 1 => {
                             let r = rng.below(7) as i64 - 1;
                             if rng.chance(1, 10) {
@@ -1056,6 +1132,7 @@ fn main() {
                             format!("q-{}-{}", name(x), name(y)),
                         ),
                     };
+                    rep.arm(&format!("srcs:effect:{}", tok.split('-').next().unwrap_or("?")));
                     chain.push_str(&format!("({}; lg({}))", stmt, i));
                     toks.push(format!("S:{}:{}", i, tok));
                 } else {
